@@ -373,6 +373,10 @@ def forced_spill_stage(pid, bindir, tier, wd, cov, v):
     for cap in ((4, 6, 8, 16, 32) if tier == "thorough" else (4, 8, 16)):
         for after in range(1, cap // 2):
             scs.append({"force": "spill_steal", "cap": cap, "after": after, "src": "forced-spill-steal"})
+    if pid == "C03":
+        # every shared push held between its count and its insert while another thread pops once
+        for ordered in (True, False):
+            scs.append({"force": "push_pop_gap", "ordered": ordered, "ops": 8, "src": "forced-push-pop-gap"})
     for i, s in enumerate(scs):
         s["id"] = i + 1
     tpath = drive(bindir, "wsq_conc", scs, wd, "creset", "cend", timeout=600, tag="_forced")
